@@ -1052,6 +1052,7 @@ impl<T, P> ThinVec<T, P> {
     {
         let len = self.len();
         let Range { start, end } = common::range(range, len)?;
+        self.reserve(end - start);
         let ptr = self.ptr();
         unsafe {
             for (i, j) in (start..end).zip(len..) {
